@@ -40,6 +40,17 @@ package cmd
 //@   ensures flag != nil ==> !flag.Load()
 
 // The manager admits on the pending flag (held until the old generation has retired), not on the active flag.
+// C20 (every request is answered with ITS outcome): the error slot of the manager holds exactly what was stored
+// last - storing nil clears an earlier reload's error - and is read back unchanged.
+//@ func (*reloadManager).setReloadError
+//@   dyncalls noeffect
+//@   modifies m.reloadingErr
+//@   ensures m != nil ==> m.reloadingErr == err
+//@ func (*reloadManager).reloadError
+//@   dyncalls noeffect
+//@   ensures m != nil ==> result == m.reloadingErr
+//@   ensures m == nil ==> result == nil
+
 //@ func (*reloadManager).queueReloadRequest
 //@   nonilcheck
 //@   trustframe
